@@ -8,9 +8,9 @@
 // trace for the Lean driver (which checks every step is enabled in the protocol model),
 // oracle.txt the failures of the property's oracles on the real run.
 //
-// Cases 0..4 are the scripted corpus (script.go), cases 5..7 the epoch cases (epoch.go: seven nodes,
+// Cases 0..6 are the scripted corpus (script.go), cases 7..9 the epoch cases (epoch.go: seven nodes,
 // the validator set changes at epoch boundaries by ValidatorsHistory and by votes; tied to
-// Model/DbftEpoch.lean), the random profiles start at case 8.
+// Model/DbftEpoch.lean), the random profiles start at case 10.
 package main
 
 import (
@@ -180,6 +180,16 @@ func main() {
 			run.quiet = true
 			run.runScript(*sc)
 		} else {
+			// a quarter of the random cases starts in the class "one validator is last within the view"
+			if r.Chance(1, 4) {
+				victim := r.Intn(nv - 1)
+				if victim >= 1 {
+					victim++ // not the primary of height 1
+				}
+				run.hadAsync = true
+				run.runScript(lateValidator(nv, victim, ""))
+				o.Count("class:late-validator")
+			}
 			run.adversarial()
 			if run.ok() {
 				run.fair(pf.fairBlocks)
